@@ -310,3 +310,4 @@ def main():
 
 if __name__ == '__main__':
     main()
+
